@@ -43,6 +43,7 @@ func runC18(c *core.Ctx) {
 	h.decodersRejectOnlyReadFailures("C18.1e decoders-reject-only-read-failures")
 	h.decodersAssignCollections("C18.1f decoders-assign-collections")
 	h.decodersUseFreshElements("C18.1g decoders-fresh-elements")
+	h.byteReadersReturnOwnedMemory("C18.1h decoded-bytes-owned")
 	h.configCodec("C18.1b config-codec")
 	c.Clause("C18.2 primitive widths and byte order agree; isEntryBuffered header length")
 	h.primitiveLayer("C18.2 primitives")
@@ -1138,4 +1139,86 @@ func (h H) decodersUseFreshElements(rule string) {
 		})
 	}
 	h.C.Floor(rule+" (element decoders in loops)", n, 2)
+}
+
+// byteReadersReturnOwnedMemory (C18.1h): the byte slice a decoder hands out is
+// memory of its own. A slice that aliases the source's buffer (bufio Peek,
+// bytes.Buffer.Next/Bytes) equals the encoded value only until the next read
+// from the same stream: the decoded value then changes under its holder.
+func (h H) byteReadersReturnOwnedMemory(rule string) {
+	n := 0
+	for _, fn := range h.P.Funcs() {
+		if fn.Pkg == nil || fn.Pkg.Pkg.Name() != "raft" || fn.Blocks == nil || fn.Signature.Recv() != nil {
+			continue
+		}
+		res := fn.Signature.Results()
+		par := fn.Signature.Params()
+		if res.Len() == 0 || par.Len() != 1 || par.At(0).Type().String() != "io.Reader" {
+			continue
+		}
+		sl, ok := res.At(0).Type().Underlying().(*types.Slice)
+		if !ok {
+			continue
+		}
+		if b, ok := sl.Elem().Underlying().(*types.Basic); !ok || b.Kind() != types.Uint8 {
+			continue
+		}
+		n++
+		ri := 0
+		core.Instrs(fn, func(in ssa.Instruction) {
+			ret, ok := in.(*ssa.Return)
+			if !ok || len(ret.Results) == 0 {
+				return
+			}
+			ri++
+			bad := ownedBytes(ret.Results[0], map[ssa.Value]bool{})
+			h.C.Check(rule, fmt.Sprintf("%s return#%d", h.name(fn), ri), bad == "", h.pos(in), "the decoded bytes are not memory of the decoder's own ("+bad+"): a slice of the source's buffer changes with the next read from the stream, so the decoded value stops being equal to the encoded one")
+		})
+	}
+	h.C.Floor(rule+" (byte readers)", n, 1)
+}
+
+// ownedBytes returns "" when v is nil or memory allocated for this value, and a description of the foreign source otherwise.
+func ownedBytes(v ssa.Value, seen map[ssa.Value]bool) string {
+	if seen[v] {
+		return ""
+	}
+	seen[v] = true
+	switch x := v.(type) {
+	case *ssa.Const:
+		if x.IsNil() {
+			return ""
+		}
+	case *ssa.MakeSlice:
+		return ""
+	case *ssa.Slice:
+		if a, ok := x.X.(*ssa.Alloc); ok && a.Heap {
+			return ""
+		}
+		return ownedBytes(x.X, seen)
+	case *ssa.Phi:
+		for _, e := range x.Edges {
+			if s := ownedBytes(e, seen); s != "" {
+				return s
+			}
+		}
+		return ""
+	case *ssa.ChangeType:
+		return ownedBytes(x.X, seen)
+	case *ssa.Extract:
+		return ownedBytes(x.Tuple, seen)
+	case *ssa.Call:
+		if b, ok := x.Call.Value.(*ssa.Builtin); ok && b.Name() == "append" {
+			return ownedBytes(x.Call.Args[0], seen)
+		}
+		if sc := x.Call.StaticCallee(); sc != nil && sc.Pkg != nil {
+			switch sc.Pkg.Pkg.Path() + "." + sc.Name() {
+			case "io.ReadAll", "bytes.Clone", "slices.Clone", "os.ReadFile":
+				return ""
+			}
+			return "result of " + sc.String()
+		}
+		return "result of a dynamic call"
+	}
+	return v.String()
 }
